@@ -230,6 +230,19 @@ VARIANTS = [
     {"name": "R1 fast path returns any buffer without a zero test or length limit", "file": DES, "expect": "C03.R1",
      "old": "        decode_buf = bytearray()\n        in_zero = False\n",
      "new": "        if 0 not in msg_buf:\n            return bytearray(msg_buf)\n        decode_buf = bytearray()\n        in_zero = False\n"},
+    {"name": "P R1 cap as an optional parameter with a fast path for zero-free input", "expect": "silent", "edits": [
+        {"file": DES, "old": "    def zero_code_expand(msg_buf: bytes):\n        decode_buf = bytearray()\n",
+         "new": "    def zero_code_expand(msg_buf: bytes, max_size: int = 0x3000):\n"
+                "        if type(msg_buf) in (bytes, bytearray) and 0 not in msg_buf:\n            if len(msg_buf) > max_size:\n"
+                "                raise ValueError(\"Unreasonably large zerocoded message\")\n            return bytearray(msg_buf)\n"
+                "        decode_buf = bytearray()\n"},
+        {"file": DES, "old": "if len(decode_buf) > 0x3000:", "new": "if len(decode_buf) > max_size:"}]},
+    {"name": "R1 cap only tested where a count byte is consumed", "expect": "C03.R1", "edits": [
+        {"file": DES, "old": "\n            # Well beyond what the viewer allows zerocoding to expand to\n" + _CAP, "new": ""},
+        {"file": DES, "old": "                    zero_count = c - 1\n", "new": "                    zero_count = c - 1\n    " + _CAP.replace("\n", "\n    ")[:-4]}]},
+    {"name": "P R3 peek window from class constants through a local alias", "expect": "silent", "edits": [
+        {"file": DES, "old": "        msg_size = len(data)\n", "new": "        msg_size = len(data)\n        lay = PacketLayout\n"},
+        {"file": DES, "old": "header = data[PacketLayout.PHL_NAME:16 + (msg.offset * 2)]", "new": "header = data[lay.PHL_NAME:16 + (msg.offset * 2)]"}]},
     # ------------------------------------------------------------------ documented limits
     {"name": "X decoder run arithmetic off by one (value-level)", "file": DES, "expect": "miss",
      "old": "zero_count = c - 1", "new": "zero_count = c"},
